@@ -14,6 +14,9 @@ Line sweep (`fine=True, fine_files=package_files()`): every executed source line
 step; `[(A, n), (B, huge), (A, huge)]` parks A before its (n+1)-th line, runs B to completion and resumes A - a single
 pre-emption at line granularity anywhere in the library, also at lines that touch shared state the model does not know.
 
+Mixed granularity (`fine=True, line_only={files}`): anchors are steps everywhere, plain lines are steps only in the given
+files (used for the id generator util/nanoid.py + util/misc.py, which runs un-mocked in the "realid" families).
+
 Schedule semantics (the Gallina model `Conc.Model.run` has the same): a schedule is a list of thread names.
 Each element allows the named thread to execute ONE anchor-step: the anchor statement it is waiting at plus
 everything after it up to (not including) its next anchor statement.  Elements naming a finished thread are
@@ -131,11 +134,15 @@ FINE = _Fine()
 
 
 class Scheduler:
-    def __init__(self, table, names, schedule, timeout=20.0, on_hit=None, fine=False, fine_files=None, locs=False):
+    def __init__(self, table, names, schedule, timeout=20.0, on_hit=None, fine=False, fine_files=None, locs=False, line_only=None):
         self.table = table
         self.files = {k[0] for k in table}
         if fine and fine_files:
             self.files = self.files | set(fine_files)      # line sweep: every line of these files is a step
+        # line_only: plain lines are steps ONLY in these files (anchors are steps everywhere) - mixed granularity
+        self.line_only = set(line_only) if line_only else None
+        if fine and self.line_only:
+            self.files = self.files | self.line_only
         self.locs = locs               # fine mode: record "file:line" of every plain line (to enumerate source lines)
         self.names = list(names)
         # the schedule is kept as [thread, count] segments (a flat list of names is accepted too)
@@ -223,7 +230,7 @@ class Scheduler:
                         except Exception as e:  # noqa
                             d = "?" + type(e).__name__
                     self.at_anchor(me, a, d)
-                elif self.fine:
+                elif self.fine and (self.line_only is None or rp in self.line_only):
                     self.at_anchor(me, FINE, "%s:%d" % (rp, frame.f_lineno) if self.locs else None)
                 self._prev[(me, id(frame))] = frame.f_lineno
             elif event == "return":
@@ -287,8 +294,8 @@ class Scheduler:
         return out, list(self.trace), bool(self.abort or hung)
 
 
-def run_schedule(table, tasks, names, schedule, timeout=20.0, fine=False, fine_files=None, locs=False):
-    s = Scheduler(table, names, schedule, timeout=timeout, fine=fine, fine_files=fine_files, locs=locs)
+def run_schedule(table, tasks, names, schedule, timeout=20.0, fine=False, fine_files=None, locs=False, line_only=None):
+    s = Scheduler(table, names, schedule, timeout=timeout, fine=fine, fine_files=fine_files, locs=locs, line_only=line_only)
     return s.run(tasks)
 
 
